@@ -361,7 +361,7 @@ int main(int argc, char **argv) {
             })));
             return c;
         });
-        ok = run_cases(a, ev, "c17-engines", a.n(6000, 100000), 100, geng, run);
+        ok = run_cases(a, ev, "c17-engines", a.n(16000, 200000), 100, geng, run);
     }
 #else
     ev.rule = "part 2 (this build, ThreadSanitizer, lock-free thread-local port): per round two threads are released by a barrier and each delivers its generated history to its own interface context. Phase A: both contexts new "
